@@ -621,6 +621,12 @@ m('hash-join-tmp-page-unpinned-clean', ['C11', 'C13'], HJE, """	// unpin the las
 		e.context.GetBufferPoolManager().UnpinPage(tmpPageID, true)""", """	// unpin the last tmp page (it is fetched again when its tuples are read)
 	if tmpPageID != common.InvalidPageID {
 		e.context.GetBufferPoolManager().UnpinPage(tmpPageID, false)""", ['C13-R8/join [(*execution/executors.HashJoinExecutor).Init:modified-page-unpinned-clean]', 'C13-R8 [(*execution/executors.HashJoinExecutor).Init:modified-page-unpinned-clean]'])
+m('free-space-formula-forgets-slot-directory', ['C15'], TP, """	ret := tp.GetFreeSpacePointer() - sizeTablePageHeader - sizeTuple*tp.GetTupleCount()""", """	ret := tp.GetFreeSpacePointer() - sizeTablePageHeader - 4*tp.GetTupleCount()""", ['C15-R7 [TablePage.getFreeSpaceRemaining:formula]'])
+m('tuple-size-read-from-offset-field', ['C15'], TP, """	return uint32(types.NewUInt32FromBytes(tp.Data()[offsetTupleSize+sizeTuple*slotNum:]))""", """	return uint32(types.NewUInt32FromBytes(tp.Data()[offsetTupleOffset+sizeTuple*slotNum:]))""", ['C15-R7 [TablePage:GetTupleSize/SetTupleSize:same-address]'])
+m('insert-lowers-free-space-pointer-too-little', ['C15'], TP, """	tp.SetFreeSpacePointer(tp.GetFreeSpacePointer() - tuple.Size())
+	tp.setTuple(slot, tuple)""", """	tp.SetFreeSpacePointer(tp.GetFreeSpacePointer() - tuple.Size() + 1)
+	tp.setTuple(slot, tuple)""", ['C15-R7 [TablePage.InsertTuple:free-space-pointer-lowered-by-tuple-size'])
+m('settuple-stores-size-as-offset', ['C15'], TP, """	tp.Copy(offsetTupleOffset+sizeTuple*slot, types.UInt32(fsp).Serialize())        // set tuple1 offset at slot""", """	tp.Copy(offsetTupleOffset+sizeTuple*slot, types.UInt32(tuple.Size()).Serialize())        // set tuple1 offset at slot""", ['C15-R7 [TablePage.setTuple:slot-describes-the-bytes]'])
 # drop the one that needs a helper that does not exist
 M = [x for x in M if x['id'] != 'insert-executor-unlocks-early']
 os.chdir(os.path.dirname(os.path.abspath(__file__)) + '/..')
